@@ -547,3 +547,72 @@ class trio_register:
                 c.events_are(in_trio, failed), c.events_are(same, failed)),    # channel already closed (shutting down): discarded
         }
     # raises = {}: adopt must not raise, also while trio is finishing its payloads' cleanup
+
+
+# ================================================================================ MetaRunner.register_payload / adopt (C03)
+from pyvc.repo import ExternalRef as _ER
+from pyvc.values import PartialFn
+
+PayloadSeq = TSeq(TAny(), "tuple")
+QueueList = TSeq(TAny(), "list")
+MetaR.fields["_runner_queues"] = TMap(val=QueueList)
+HEAPS = ("$mhas", "$mval", "$len", "$item")
+
+
+def flavour_terms(c):
+    return [c.ctx.to_val(_ER(m)).t for m in ("trio", "asyncio", "threading")]
+
+
+def known_flavour(c, flavour):
+    return c.Or(*[flavour.t == t for t in flavour_terms(c)])
+
+
+@contract(RUN + "meta_runner:MetaRunner.register_payload", props=["C03"])
+class meta_register:
+    """with a runner for the flavour: every payload is handed to THAT runner exactly once, in order, and nothing is queued;
+    before the runners exist: the payloads are appended to the flavour's queue, in order; for the three flavours of the
+    runtime it never raises, in any state"""
+    params = dict(self=MetaR, payloads=PayloadSeq, flavour=TAny())
+    has_events = True
+
+    def writes(c, self, payloads, flavour):
+        return [("all", f, lambda x: True) for f in HEAPS]
+
+    def ensures(c, self, payloads, flavour):
+        s0 = c.old(self)
+        ps = c.old(payloads)
+        m = ps.len
+        present = s0._runners.has(flavour)
+        runner = s0._runners[flavour]
+        q0 = s0._runner_queues[flavour]
+        q1 = c.new(s0)._runner_queues[flavour]
+        len0 = z3.If(s0._runner_queues.has(flavour), q0.len, 0)
+        unchanged = c.And(*[c.ctx.rd(c.new_heap, f) == c.ctx.rd(c.old_heap, f) for f in HEAPS])
+        idle = c.And(c.Not(present), c.Not(flag(s0.running, "isset")))         # before the runners exist: queue
+        closing = c.And(c.Not(present), flag(s0.running, "isset"))            # still running but runners already closed
+        return {
+            "only-while-shutting-down-a-payload-is-discarded": c.Implies(closing, c.And(c.no_events(), unchanged)),
+            "with-a-runner-each-payload-is-handed-to-it-exactly-once-in-order": c.Implies(present, c.And(
+                c.n_events() == m, c.for_each("j", lambda j: c.Implies(c.And(0 <= j, j < m), c.event_at(j) == c.event("register_payload", runner, ps[j]))))),
+            "with-a-runner-nothing-is-queued": c.Implies(present, unchanged),
+            "without-runners-nothing-is-started": c.Implies(idle, c.no_events()),
+            "without-runners-the-flavour-has-a-queue": c.Implies(idle, c.new(s0)._runner_queues.has(flavour)),
+            "without-runners-the-queue-grows-by-the-payloads": c.Implies(idle, q1.len == len0 + m),
+            "without-runners-the-payloads-are-appended-in-order": c.Implies(idle, c.for_each("k", lambda k: c.Implies(c.And(0 <= k, k < m), q1.item_term(len0 + k) == ps.item_term(k)))),
+            "without-runners-earlier-queued-payloads-stay": c.Implies(idle, c.for_each("k", lambda k: c.Implies(c.And(0 <= k, k < len0), q1.item_term(k) == q0.item_term(k)))),
+        }
+
+    # an unknown flavour while running is a usage error; the runtime's own three flavours never raise
+    raises = {"RuntimeError": lambda c, self, payloads, flavour, exc: c.And(c.Not(c.old(self)._runners.has(flavour)), c.Not(known_flavour(c, flavour)))}
+
+    loops = {
+        0: Loop(
+            inv=lambda c, L, i: {
+                "payloads-so-far-handed-over-once-each-in-order": c.And(c.n_events() == i, c.for_each("j", lambda j: c.Implies(
+                    c.And(0 <= j, j < i), c.event_at(j) == c.event("register_payload", L.runner, c.old(c.seq)[j])))),
+                "nothing-queued": c.And(*[c.ctx.rd(c.new_heap, f) == c.ctx.rd(c.old_heap, f) for f in HEAPS]),
+            },
+            modifies=lambda c, L: [("trace",)],
+            local_types={"payload": TAny()},
+        )
+    }
